@@ -28,7 +28,7 @@ THEOREMS = [
     'PMap.file_names_collision_counterexample',
 ]
 
-CACHE = os.path.join(common.CACHE, 'c11')
+CACHE = os.path.join(common.CACHE, f'c11-{os.getpid()}')
 
 
 def task(x):
